@@ -146,7 +146,8 @@ def handle_trace_string_global(parser, events):
     str_id = 0
     vstr = b''
     lookup_events = []
-    for event in events:
+    # Other trace records of the same thread may be logged between the chunks, only the string's own records are text.
+    for event in filter(lambda e: e.eventid == events[0].eventid, events):
         lookup_events.append(event)
         if event.func_qualifier & DgbFuncQual.DBG_FUNC_START.value:
             debugid = event.values[0]
@@ -185,14 +186,14 @@ def handle_trace_string_proc_exit(parser, events):
 
 
 def handle_trace_string_threadname(parser, events):
-    name = b''.join([e.data for e in events]).replace(b'\x00', b'').decode()
+    name = b''.join([e.data for e in events if e.eventid == events[0].eventid]).replace(b'\x00', b'').decode()
     event = TraceStringThreadname(events, name)
     parser.tids_names[events[0].tid] = event.name
     return event
 
 
 def handle_trace_string_threadname_prev(parser, events):
-    name = b''.join([e.data for e in events]).replace(b'\x00', b'').decode()
+    name = b''.join([e.data for e in events if e.eventid == events[0].eventid]).replace(b'\x00', b'').decode()
     event = TraceStringThreadnamePrev(events, name)
     parser.tids_names[events[0].tid] = event.name
     return event
